@@ -1082,6 +1082,13 @@ fn main() {
                     println!("RESULT enum:kinds-grid records={recs:?} columns={got:?} expected columns={want:?} rows kept={}", g.rows == recs);
                     std::process::exit(3);
                 }
+                // the constructor with meta: the same grid, carrying exactly the given meta
+                let meta = mk(&[("dis", Value::make_str("A grid")), ("ver", Value::make_str("x"))]);
+                let gm = Grid::make_from_dicts_with_meta(recs.clone(), meta.clone());
+                if gm.meta != Some(meta.clone()) || gm.rows != g.rows || gm.columns != g.columns || gm.ver != g.ver {
+                    println!("RESULT enum:kinds-grid records={recs:?} make_from_dicts_with_meta: meta={:?} (given {meta:?}), same rows={} same columns={}", gm.meta, gm.rows == g.rows, gm.columns == g.columns);
+                    std::process::exit(3);
+                }
             }
             println!("RESULT enum:kinds-grid {} values have exactly one kind; grids built from records keep the rows and have one sorted column per tag", samples.len());
         }
